@@ -91,6 +91,15 @@ def _ref_one(pm, call, want_out):
         opts = [_mk_rao(pm, call['ra'])]
         c['ra'] = {'slot': 0}
     fn = build_call(pm, c, sources, lists, opts)
+    # the reference process differs from the run in everything the result must NOT depend on: working directory,
+    # locale/timezone/user variables, an unrelated variable, argv
+    try:
+        os.chdir('/usr')
+    except OSError:
+        pass
+    os.environ.update({'TZ': 'Pacific/Kiritimati', 'LANG': 'tr_TR.UTF-8', 'LC_ALL': 'C', 'HOME': '/nonexistent', 'USER': 'ref',
+                       'COLUMNS': '40', 'PYTHONIOENCODING': 'latin-1', 'PMV_REFERENCE': '1', 'TMPDIR': '/dev/shm'})
+    sys.argv = ['reference', '--other']
     if call.get('reclimit_delta'):
         # margin reference: the same call with a slightly different stack budget, to tell "the input sits right at
         # the recursion limit" (tracing costs a frame or two) from "this execution lost stack it should have had"
